@@ -8,7 +8,7 @@ from . import _difffam as FAM
 
 ID = 'C13'
 LEAN_TARGETS = ['Properties.C13']
-THEOREMS = ['Diff.C13_exclude_is_filter', 'Diff.C13_exclude_is_filter_deepDiff', 'Diff.C13_nothing_below_excluded', 'Diff.C13_skip_exclude_only', 'Diff.C13_skip_prefix', 'Diff.C13_reported_not_skipped', 'Diff.C13_excluded_child_silent', 'Diff.C13_N_include_int_key', 'Diff.C13_N_threshold_leak']
+THEOREMS = ['Diff.C13_exclude_is_filter', 'Diff.C13_exclude_is_filter_deepDiff', 'Diff.C13_nothing_below_excluded', 'Diff.C13_restriction_is_filter', 'Diff.C13_exclude_regex_is_filter', 'Diff.C13_exclude_regex_is_filter_deepDiff', 'Diff.C13_nothing_below_matched', 'Diff.C13_skip_exclude_only', 'Diff.C13_skip_prefix', 'Diff.C13_reported_not_skipped', 'Diff.C13_excluded_child_silent', 'Diff.C13_N_include_int_key', 'Diff.C13_N_threshold_leak']
 RULE = ('pairs of nested values x every path that exists in either input (dictionary keys of the supported types and list indexes, every depth): in positional '
         'mode for arbitrary paths, in default alignment for dict-key paths; single paths and pairs of paths; exclude literally, exclude by anchored regex, include; '
         'threshold_to_diff_deeper=0. The restricted result is compared with the filtered unrestricted result on the implementation, and implementation vs Lean '
